@@ -47,6 +47,9 @@ pub mod types;
 mod parsing;
 mod parsing_reader;
 
+#[cfg(rpgp_rpgp_verif)]
+pub mod verif_hooks;
+
 /// The version of this crate.
 pub const VERSION: &str = env!("CARGO_PKG_VERSION");
 
